@@ -27,6 +27,7 @@ var registry = map[string]checkFn{
 	"C06": runC06,
 	"C08": runC08,
 	"C09": runC09,
+	"C10": runC10,
 	"C11": runC11,
 	"C12": runC12,
 	"C16": runC16,
